@@ -436,10 +436,11 @@ Inductive fragment_type :=
 
 Definition classify (s : ostate) (bc : option bcast_mode) (bytes : list N) (ctl fn : N) (obj : objres)
   : fragment_type :=
-  if fn =? fn_confirm then (if ctl_uns ctl then FtUnsolConfirm (ctl_seq ctl) else FtSolConfirm (ctl_seq ctl))
-  else match bc with
+  match bc with
   | Some m => FtBroadcast m
   | None =>
+    if fn =? fn_confirm then (if ctl_uns ctl then FtUnsolConfirm (ctl_seq ctl) else FtSolConfirm (ctl_seq ctl))
+    else
       match obj with
       | ObjErr iin2 => FtMalformed iin2
       | ObjOk hdrs rh =>
